@@ -63,6 +63,10 @@ pub fn term(t: &T, env: &Env) -> PTerm {
 /// Goal kind: interleaving (`Goal`) or depth-first (`DFSGoal`).
 pub trait GK: AnyGoal<SimUser, Eng> {
     const DFS: bool;
+    /// Disjunction of conjunctions through the entry functions the macros expand to:
+    /// `conde { .. }` -> `operator::conde::conde` (interleaving only) and `cond { .. }` ->
+    /// `operator::conde::cond` (inferred kind).
+    fn conde(clauses: &[&[Self]]) -> Self;
     fn from_bfs(g: PGoal) -> Self;
     fn disj(a: Self, b: Self) -> Self;
     fn pause(state: Box<PState>, g: Self) -> PStream;
@@ -72,6 +76,14 @@ pub trait GK: AnyGoal<SimUser, Eng> {
 
 impl GK for PGoal {
     const DFS: bool = false;
+    fn conde(clauses: &[&[Self]]) -> Self {
+        // two-clause disjunctions are written `cond`, all others `conde`: both entry points run
+        if clauses.len() == 2 {
+            GoalCast::cast_into(proto_vulcan::operator::conde::cond::<SimUser, Eng, PGoal>(OperatorParam::new(clauses)))
+        } else {
+            proto_vulcan::operator::conde::conde(OperatorParam::new(clauses))
+        }
+    }
     fn from_bfs(g: PGoal) -> Self {
         g
     }
@@ -91,6 +103,9 @@ impl GK for PGoal {
 
 impl GK for PDfsGoal {
     const DFS: bool = true;
+    fn conde(clauses: &[&[Self]]) -> Self {
+        GoalCast::cast_into(proto_vulcan::operator::conde::cond::<SimUser, Eng, PDfsGoal>(OperatorParam::new(clauses)))
+    }
     fn from_bfs(_g: PGoal) -> Self {
         panic!("harness: interleaving-only goal inside a dfs block")
     }
@@ -189,7 +204,7 @@ pub fn build<K: GK>(g: &G, env: &Env, cx: &Ctx) -> K {
         G::Conde(cs) => {
             let lists = clause_lists::<K>(cs, env, cx);
             let refs: Vec<&[K]> = lists.iter().map(|v| v.as_slice()).collect();
-            GoalCast::cast_into(Conde::<SimUser, Eng, K>::from_conjunctions(&refs))
+            K::conde(&refs)
         }
         G::Disj(a, b) => K::disj(build::<K>(a, env, cx), build::<K>(b, env, cx)),
         G::Fresh(vars, body) => {
